@@ -37,6 +37,7 @@ def errName : Err → String
   | .flagConflict => "flagConflict" | .dupNames => "dupNames" | .badLength => "badLength"
   | .nanValue => "nanValue" | .maxsOutside => "maxsOutside" | .defaultsOutside => "defaultsOutside"
   | .unknownKey => "unknownKey" | .index => "index"
+  | .noAttr => "noAttr" | .notNumber => "notNumber" | .copyProtocol => "copyProtocol"
 
 def fmtOut : Out → String
   | .ok => "ok -"
@@ -63,7 +64,7 @@ def aliasClasses (w : World Float) : List Nat :=
   let refs := w.vecs.flatMap Vec.refs
   refs.map fun r => (refs.findIdx? (· == r)).getD 0
 
-/-- `out kind G<region flag of the op: 1/0/-> R:<value read by the op or -> <vectors> A<alias classes>` -/
+/-- reply tokens: out, kind, G + region flag of the op (1, 0 or dash), R: + value read by the op (or dash), the vectors, A + alias classes -/
 def observe (w : World Float) (o : Out) (g : String := "-") (r : String := "-") : String :=
   let vs := w.vecs.map fun v =>
     let vw := view w.store v
